@@ -69,7 +69,7 @@ Definition step (e : entry) (o : op) : entry :=
                      pend := pend e1; inflight := inflight e1; requested := requested e1; crashed := crashed e1;
                      get_without_sub := get_without_sub e1 |} in
         set_lists e2 (subs e2) (pend e2 ++ [s]) (inflight e2) (requested e2) (get_without_sub e2)
-      else e1                                              (* P27: error return keeps the count *)
+      else remove_count e1 1                              (* the event subscription failed: the count is released *)
   | Request => let e1 := get_sub e in set_lists e1 (subs e1) (pend e1) (S (inflight e1)) (requested e1) (get_without_sub e1)
   | AddSubTask s =>
       if memb s (pend e) then
@@ -80,9 +80,11 @@ Definition step (e : entry) (o : op) : entry :=
       let n := Z.of_nat (length (subs e)) in
       let e1 := remove_count e n in set_lists e1 [] (pend e1) (inflight e1) false (get_without_sub e1)
   | Unsub s =>
-      (* pinned code: releases whether or not s is still registered *)
-      let e1 := set_lists e (remove_nat s (subs e)) (pend e) (inflight e) (requested e) (get_without_sub e) in
-      remove_count e1 1
+      (* releases only a registered subscriber (a delete event or failed get already released the others) *)
+      if memb s (subs e) then
+        let e1 := set_lists e (remove_nat s (subs e)) (pend e) (inflight e) (requested e) (get_without_sub e) in
+        remove_count e1 1
+      else e
   | ReqDone =>
       match inflight e with
       | O => e
@@ -98,12 +100,11 @@ Definition step (e : entry) (o : op) : entry :=
       else e
   end.
 
-(* environment contract for the defect-free theorems: unsubscribe only a registered subscriber, each
-   subscriber id is used once, the MQ accepts the event subscription *)
+(* environment contract for the defect-free theorems: each subscriber id is used once.
+   (Unsubscribing an unknown subscriber and an MQ refusing the event subscription are handled by the code.) *)
 Definition allowed (e : entry) (o : op) : Prop :=
   match o with
-  | Unsub s => memb s (subs e) = true
-  | Subscribe s ok => ok = true /\ memb s (subs e) = false /\ memb s (pend e) = false
+  | Subscribe s ok => memb s (subs e) = false /\ memb s (pend e) = false
   | _ => True
   end.
 
@@ -169,15 +170,24 @@ Proof.
   destruct (subs e), (pend e), (inflight e); cbn in *; try lia. auto.
 Qed.
 
-(* Cache.Subscribe with a working MQ always ends in the same shape *)
-Lemma step_subscribe e s : step e (Subscribe s true) =
+(* Cache.Subscribe with a working MQ, or on an entry whose MQ subscription is already established,
+   always ends in the same shape *)
+Lemma step_subscribe_gen e s ok : ok = true \/ mqsub (get_sub e) = true -> step e (Subscribe s ok) =
   let e1 := get_sub e in
   {| present := true; count := count e1; mqsub := true; inq := inq e1; subs := subs e1; pend := pend e1 ++ [s];
      inflight := inflight e1; requested := requested e1; crashed := crashed e1; get_without_sub := get_without_sub e1 |}.
 Proof.
-  cbn [step]. assert (Hp : present (get_sub e) = true) by (unfold get_sub; destruct (present e); reflexivity).
-  destruct (mqsub (get_sub e)) eqn:Em; unfold set_lists; cbn; rewrite ?Hp, ?Em; reflexivity.
+  intros H. cbn [step]. assert (Hp : present (get_sub e) = true) by (unfold get_sub; destruct (present e); reflexivity).
+  destruct (mqsub (get_sub e)) eqn:Em.
+  - unfold set_lists; cbn; rewrite ?Hp, ?Em; reflexivity.
+  - destruct H as [->|H]; [|discriminate H]. unfold set_lists; cbn; rewrite ?Hp; reflexivity.
 Qed.
+
+Lemma step_subscribe e s : step e (Subscribe s true) =
+  let e1 := get_sub e in
+  {| present := true; count := count e1; mqsub := true; inq := inq e1; subs := subs e1; pend := pend e1 ++ [s];
+     inflight := inflight e1; requested := requested e1; crashed := crashed e1; get_without_sub := get_without_sub e1 |}.
+Proof. apply step_subscribe_gen. left; reflexivity. Qed.
 
 Lemma step_inv e o : Inv e -> allowed e o -> Inv (step e o).
 Proof.
@@ -186,8 +196,36 @@ Proof.
   assert (Hinv : Inv e) by (constructor; auto).
   destruct o as [s ok| |s| | |s| |]; cbn [allowed] in Ha.
   - (* Subscribe *)
-    destruct Ha as (-> & Hs1 & Hs2). apply memb_false in Hs1. apply memb_false in Hs2.
-    rewrite step_subscribe. cbn zeta. unfold get_sub. destruct (present e) eqn:Ep; cbn.
+    destruct Ha as (Hs1 & Hs2). apply memb_false in Hs1. apply memb_false in Hs2.
+    destruct (ok || mqsub (get_sub e)) eqn:Eok.
+    2:{ (* the MQ refuses the event subscription: the count taken is released *)
+      apply orb_false_iff in Eok as [-> Em]. cbn [step]. rewrite Em. clear s Hs1 Hs2.
+      unfold get_sub in *. destruct (present e) eqn:Ep; cbn in Em; unfold remove_count; cbn.
+      - (* pre-existing entry without MQ subscription: back to where it was *)
+        constructor; cbn.
+        + unfold users in *. cbn. lia.
+        + destruct (Z.eqb_spec (count e + 1 - 1) 0) as [E0|E0]; cbn.
+          * intros _. split; [reflexivity|lia].
+          * destruct (Z.eqb_spec (count e) 0) as [E|E]; [lia|]. intros Hi. destruct (Hq1 Hi). split; [reflexivity|lia].
+        + intros _ Hle. destruct (Z.eqb_spec (count e + 1 - 1) 0) as [E0|E0]; cbn; [reflexivity|]. lia.
+        + intros Hx. discriminate Hx.
+        + auto.
+        + rewrite Hcr. cbn. destruct (Z.eqb_spec (count e + 1 - 1) 0) as [E0|E0]; cbn; [|reflexivity].
+          destruct (Z.eqb_spec (count e) 0) as [E|E]; [reflexivity|lia].
+        + exact Hmq.
+        + exact Hg.
+      - (* freshly created entry: count 1 then 0, queued for eviction *)
+        constructor; cbn.
+        + reflexivity.
+        + intros _. split; [reflexivity|lia].
+        + reflexivity.
+        + intros Hx. discriminate Hx.
+        + split; [constructor|]. split; [constructor|]. intros x [].
+        + rewrite Hcr. reflexivity.
+        + intros [Hx|Hx]; congruence.
+        + exact Hg. }
+    apply orb_true_iff in Eok. rewrite (step_subscribe_gen e s ok Eok). clear Eok.
+    cbn zeta. unfold get_sub. destruct (present e) eqn:Ep; cbn.
     + constructor; cbn.
       * unfold users in *. cbn. rewrite app_length. cbn. lia.
       * destruct (Z.eqb_spec (count e) 0) as [E|E]; [discriminate|]. intros Hi. destruct (Hq1 Hi). lia.
@@ -287,8 +325,9 @@ Proof.
       destruct (inq e) eqn:Ei; [|reflexivity]. destruct (Hq1 eq_refl). unfold n in *. lia.
     + intros [Hx|Hx]; [congruence|]. apply Hmq. right; exact Hx.
     + exact Hg.
-  - (* Unsubscribe of a registered subscriber *)
-    apply memb_in in Ha. cbn [step]. unfold remove_count, set_lists. cbn.
+  - (* Unsubscribe: a no-op unless the subscriber is registered *)
+    clear Ha. cbn [step]. destruct (memb s (subs e)) eqn:Ha; [|exact Hinv].
+    apply memb_in in Ha. unfold remove_count, set_lists. cbn.
     pose proof (remove_len s (subs e) Hn1 Ha) as Hlen.
     assert (Hpr : present e = true).
     { destruct (present e) eqn:Ep; [reflexivity|]. destruct (absent_lists e Hinv Ep) as (Es & _). rewrite Es in Ha. contradiction. }
@@ -389,15 +428,48 @@ Example ok_run :
   (present e, count e, crashed e) = (false, 0, false).
 Proof. reflexivity. Qed.
 
-(* P4 on the pinned code: the delete event released subscriber 1, its Unsubscribe releases again;
-   a new live subscriber then sits at count 0, queued for eviction, and the timer evicts the entry in use *)
-Example refuted_P4 :
+(* P4 repaired: the delete event released subscriber 1, its late Unsubscribe is a no-op;
+   the new subscriber holds a count of 1 and the entry is not queued for eviction *)
+Example fixed_P4 :
   let e := run [Subscribe 1 true; AddSubTask 1; DeleteEv; Unsub 1; Subscribe 2 true; AddSubTask 2] in
-  (count e, subs e, inq e) = (0, [2%nat], true) /\ present (step e TimerFire) = false.
+  (count e, subs e, inq e) = (1, [2%nat], false).
+Proof. reflexivity. Qed.
+
+(* P27 repaired: the MQ refuses the event subscription (subject too long): the count is released,
+   the fresh entry is queued for eviction and the timer removes it *)
+Example fixed_P27 :
+  let e := run [Subscribe 1 false] in
+  (present e, count e, users e, inq e) = (true, 0, 0, true) /\ present (step e TimerFire) = false.
 Proof. split; reflexivity. Qed.
 
-(* P27 on the pinned code: the MQ refuses the event subscription (subject too long):
-   a count is held with no user and the entry is not queued for eviction *)
-Example refuted_P27 :
-  let e := run [Subscribe 1 false] in (present e, count e, users e, inq e) = (true, 1, 0, false).
-Proof. reflexivity. Qed.
+(* Unsubscribing somebody who is not registered changes nothing (no invariant needed) *)
+Theorem unsub_nonmember_noop : forall e s, memb s (subs e) = false -> step e (Unsub s) = e.
+Proof. intros e s H. cbn [step]. rewrite H. reflexivity. Qed.
+
+(* A Subscribe with mq_ok = false on an entry whose MQ subscription is already established never asks the MQ:
+   it succeeds exactly like one with mq_ok = true (one more user, one more count) *)
+Theorem subscribe_established_ignores_mq : forall e s, Inv e -> mqsub e = true ->
+  step e (Subscribe s false) = step e (Subscribe s true) /\
+  users (step e (Subscribe s false)) = users e + 1 /\ count (step e (Subscribe s false)) = count e + 1.
+Proof.
+  intros e s H Hm.
+  assert (Hp : present e = true).
+  { destruct (present e) eqn:Ep; [reflexivity|]. destruct (i_absent e H Ep) as [_ Hx]. congruence. }
+  assert (Hm1 : mqsub (get_sub e) = true) by (unfold get_sub; rewrite Hp; exact Hm).
+  rewrite (step_subscribe_gen e s false (or_intror Hm1)), step_subscribe.
+  split; [reflexivity|]. cbn zeta. unfold get_sub. rewrite Hp. unfold users. cbn. rewrite app_length. cbn. lia.
+Qed.
+
+(* A refused event subscription (which presupposes that none is established yet: mqsub e = false) leaves the number
+   of users and the count unchanged, for a pre-existing entry as well as for an absent one (which becomes present
+   with count 0).  Inv is only used for the absent entry (count e = users e = 0); the freshness of s is not used. *)
+Theorem failed_subscribe_releases : forall e s, Inv e -> mqsub e = false ->
+  memb s (subs e) = false -> memb s (pend e) = false ->
+  users (step e (Subscribe s false)) = users e /\ count (step e (Subscribe s false)) = count e /\
+  present (step e (Subscribe s false)) = true.
+Proof.
+  intros e s H Hm _ _. cbn [step]. unfold get_sub. destruct (present e) eqn:Ep; cbn.
+  - rewrite Hm. unfold remove_count, users. cbn. repeat split. lia.
+  - destruct (i_absent e H Ep) as [Hu _]. pose proof (i_count e H) as Hc. rewrite Hu in Hc.
+    rewrite Hu, Hc. unfold users. cbn. repeat split.
+Qed.
